@@ -32,6 +32,22 @@ func (r *Run) unexportedHelper(info *types.Info, c *ast.CallExpr) *FuncDecl {
 	return r.Prog.Funcs[f.Origin()]
 }
 
+// transparentCallee: like unexportedHelper, plus exported one-line functions (`return <expr>`), which the
+// call inventory replaces by the calls they make.
+func (r *Run) transparentCallee(info *types.Info, c *ast.CallExpr) *FuncDecl {
+	if h := r.unexportedHelper(info, c); h != nil {
+		return h
+	}
+	f := typeutil.StaticCallee(info, c)
+	if f == nil || !InModule(f) {
+		return nil
+	}
+	if hd := r.Prog.Funcs[f.Origin()]; hd != nil && isOneLiner(hd) {
+		return hd
+	}
+	return nil
+}
+
 func (r *Run) callSeqRec(fd *FuncDecl, onPath map[*FuncDecl]bool, depth int) []string {
 	if onPath[fd] || depth > 4 {
 		return nil
@@ -75,7 +91,7 @@ func (r *Run) callSeqRec(fd *FuncDecl, onPath map[*FuncDecl]bool, depth int) []s
 				k += " @" + strings.Join(lc, " / ")
 			}
 			// evaluation order: arguments before the call itself → order by end position
-			items = append(items, item{int(c.End()), k, r.unexportedHelper(u.Info, c), c})
+			items = append(items, item{int(c.End()), k, r.transparentCallee(u.Info, c), c})
 			return true
 		})
 		sort.SliceStable(items, func(i, j int) bool { return items[i].pos < items[j].pos })
